@@ -17,7 +17,7 @@ template <typename F>
 bool rc_run(const std::string& name, long cases, int max_size, F&& property) {
     using namespace rc::detail;
     Worker& w = W();
-    TestParams p; p.seed = mix64(w.args.seed * 1000003ull + (uint64_t)w.args.worker * 7919ull + fnv1a(name)); if (p.seed == 0) p.seed = 1;
+    TestParams p; p.seed = mix64(w.args.seed * 1000003ull + (uint64_t)w.args.worker * 7919ull + fnv1a(name) + fnv1a(w.args.variant) * 31ull);   // every (seed, worker, property, build variant) explores different cases if (p.seed == 0) p.seed = 1;
     p.maxSuccess = (int)cases; p.maxSize = max_size; p.maxDiscardRatio = 20;
     TestMetadata md; md.id = name; md.description = name;
     int before = w.failures;
